@@ -63,11 +63,11 @@ Section C08Gen.
     is_pedantic e = true \/ exists g', inner_op (w_inner w) o = (IRaise e, g').
   Proof.
     intros w o e w' H.
-    assert (Hsend : forall v, w_send check yt st_ rt body w v = (WRaise e, w') ->
+    assert (Hsend : forall w0 v, w_inner w0 = w_inner w -> w_send check yt st_ rt body w0 v = (WRaise e, w') ->
                      is_pedantic e = true \/ exists g', inner_send body (w_inner w) v = (IRaise e, g')).
-    { intros v Hv. unfold w_send in Hv.
-      destruct (w_init w).
-      - destruct (check st_ v (w_tv w)) as [[u|e0] tv1] eqn:Ec.
+    { intros w0 v Hin Hv. unfold w_send in Hv. rewrite Hin in Hv.
+      destruct (w_init w0).
+      - destruct (check st_ v (w_tv w0)) as [[u|e0] tv1] eqn:Ec.
         + destruct (inner_send body (w_inner w) v) as [[y|r|e1|] g'] eqn:Ei.
           * destruct (check yt y tv1) as [[u2|e2] tv2] eqn:Ey; inversion Hv; subst. left. eapply check_pedantic; eassumption.
           * destruct (check rt r tv1) as [[u2|e2] tv2] eqn:Er; inversion Hv; subst. left. eapply check_pedantic; eassumption.
@@ -75,13 +75,13 @@ Section C08Gen.
           * discriminate Hv.
         + inversion Hv; subst. left. eapply check_pedantic; eassumption.
       - destruct (inner_send body (w_inner w) v) as [[y|r|e1|] g'] eqn:Ei.
-        + destruct (check yt y (w_tv w)) as [[u2|e2] tv2] eqn:Ey; inversion Hv; subst. left. eapply check_pedantic; eassumption.
-        + destruct (check rt r (w_tv w)) as [[u2|e2] tv2] eqn:Er; inversion Hv; subst. left. eapply check_pedantic; eassumption.
+        + destruct (check yt y (w_tv w0)) as [[u2|e2] tv2] eqn:Ey; inversion Hv; subst. left. eapply check_pedantic; eassumption.
+        + destruct (check rt r (w_tv w0)) as [[u2|e2] tv2] eqn:Er; inversion Hv; subst. left. eapply check_pedantic; eassumption.
         + inversion Hv; subst. right. eauto.
         + discriminate Hv. }
     destruct o as [|v|e0|]; cbn [w_step inner_op] in *.
-    - now apply Hsend.
-    - now apply Hsend.
+    - unfold w_next in H. now apply (Hsend (w_uninit w)).
+    - now apply (Hsend w).
     - unfold w_throw in H. destruct (inner_throw body (w_inner w) e0) as [[y|r|e1|] g'] eqn:Ei; inversion H; subst. right. eauto.
     - unfold w_close in H. destruct (inner_close body (w_inner w)) as [[y|r|e1|] g'] eqn:Ei; inversion H; subst. right. eauto.
   Qed.
